@@ -28,6 +28,7 @@ def main():
     ap.add_argument("--demo-run", default=""); ap.add_argument("--needs", default="")
     ap.add_argument("--checks", default=""); ap.add_argument("--tier", default="quick")
     ap.add_argument("--notes", default="")
+    ap.add_argument("--race", action="store_true", help="run the demonstration under the race detector (go test -race)")
     a = ap.parse_args()
     wt = "/tmp/seed-" + a.name
     subprocess.run(["git", "-C", "/repo", "worktree", "remove", "--force", wt], capture_output=True)
@@ -36,7 +37,7 @@ def main():
     meta = dict(name=a.name, property=a.prop, needs=a.needs, ran=[], confirmed=False)
     try:
         demo_dst = os.path.join(wt, a.demo_dir, "zz_seeded_demo_test.go")
-        runarg = ["-run", a.demo_run] if a.demo_run else []
+        runarg = (["-run", a.demo_run] if a.demo_run else []) + (["-race"] if a.race else [])
         # demo passes on the pristine tree
         shutil.copy(a.demo, demo_dst)
         rc0, out0 = sh(["go", "test", "-vet=off", "-count=1"] + runarg + ["./" + a.demo_dir], cwd=wt)
